@@ -324,6 +324,35 @@ class OverflowThenFail(Family):
         return r, count > 1000, 2
 
 
+class MultisigCounts(Family):
+    """CHECKMULTISIG(VERIFY) reached with every kind of key-count / signature-count operand (negative, zero, 20, 21,
+    2^31-1, non-minimal, 5-byte, empty) on stacks of several depths, after n counted operations: containment and the
+    limits of the captured error state (nOpCount in particular)"""
+    name = 'multisig_count_operands'
+    engine = 'E3'
+    nontrivial_rule = 'every case'
+
+    COUNTS = [b'', b'\x00', b'\x01', b'\x02', b'\x14', b'\x15', b'\x81', b'\x80', b'\xff\xff\xff\x7f', b'\xff\xff\xff\xff', b'\x00\x00\x00\x80\x00', b'\x01\x00', b'\xff\x00', b'\x10']
+
+    def cases(self, shard, tier):
+        for op in (0xae, 0xaf):
+            for kc in range(len(self.COUNTS)):
+                for sc in range(len(self.COUNTS)):
+                    for nops in (0, 180, 200):
+                        for extra in (0, 3, 25):
+                            yield (op, kc, sc, nops, extra)
+
+    def check(self, case):
+        op, kc, sc, nops, extra = case
+        k = self.COUNTS[kc]
+        items = b''.join(RS.push_encode(bytes([7])) for _ in range(extra))
+        script = b'\x61' * nops + b'\x00' + RS.push_encode(self.COUNTS[sc]) + items + RS.push_encode(k) + bytes([op])
+        r1 = contained(b'', script, FLAGSETS[0], what='[multisig counts]')
+        r2 = contained(b'\x00' + RS.push_encode(self.COUNTS[sc]) + items + RS.push_encode(k), b'\x61' * nops + bytes([op]), FLAGSETS[3], what='[multisig counts]')
+        check_unchanged('multisig counts')
+        return r1, True, 2
+
+
 def _valid_sig_and_keys():
     m = C.default_tx(2, 2)
     pub = EC.pubkey(5, True)
@@ -416,4 +445,4 @@ class TxShapes(Family):
 
 
 def families(tier):
-    return [ShortStrings(), CorpusFaults(), LongScripts(), OverflowThenFail(), SigGarbage(), TxShapes()]
+    return [ShortStrings(), CorpusFaults(), LongScripts(), OverflowThenFail(), MultisigCounts(), SigGarbage(), TxShapes()]
